@@ -210,6 +210,26 @@ func parallelGen(c *common, n int, gen func(i int, r *rng.R) (sim.History, []str
 	return hists, traces
 }
 
+// parallelDo runs f(i) for i in [0,n) on c.workers goroutines.
+func parallelDo(c *common, n int, f func(i int)) {
+	var wg sync.WaitGroup
+	ch := make(chan int)
+	for w := 0; w < c.workers; w++ {
+		wg.Add(1)
+		go func() {
+			defer wg.Done()
+			for i := range ch {
+				f(i)
+			}
+		}()
+	}
+	for i := 0; i < n; i++ {
+		ch <- i
+	}
+	close(ch)
+	wg.Wait()
+}
+
 func main() {
 	if len(os.Args) < 2 {
 		fmt.Fprintln(os.Stderr, "usage: gkh <repo|hook|cron|mut|disp|pool|lin|sched|crash> [flags]")
@@ -218,6 +238,8 @@ func main() {
 	switch os.Args[1] {
 	case "repo":
 		cmdRepo(os.Args[2:])
+	case "hook":
+		cmdHook(os.Args[2:])
 	default:
 		fmt.Fprintln(os.Stderr, "gkh: unknown family", os.Args[1])
 		os.Exit(2)
